@@ -33,6 +33,7 @@ class H:
         self.sample = None
         self.inputs_struct = None   # python structure with z3 leaves describing the inputs
         self.covers = {}
+        self.seen = []            # obligation ids evaluated on this path
 
     # -- symbolic input builders -------------------------------------------
     def byte(self, name, lo=0, hi=127, exclude=()):
@@ -94,6 +95,8 @@ class H:
         input.  known_classes: list of (id, z3 Bool over inputs) of recorded findings."""
         P = self.P
         self.obligations += 1
+        if obligation not in self.seen:
+            self.seen.append(obligation)
         if isinstance(prop, Sc):
             prop = prop.v
         if isinstance(prop, bool):
